@@ -148,18 +148,21 @@ static void op_BpppProve(const jv *in, jout *out) {
 /* secp256k1_bppp_rangeproof_norm_product_verify; called twice on the same scratch space (ret2): the result
  * must not depend on what an earlier call left behind in the scratch space */
 static void op_BpppVerify(const jv *in, jout *out) {
-    size_t cl; long plen; secp256k1_scalar rho; secp256k1_sha256 tr, tr2; secp256k1_ge commit; unsigned char *proof;
+    size_t cl; long plen; secp256k1_scalar rho, zrho; secp256k1_sha256 tr, tr2, tr3, tr4; secp256k1_ge commit; unsigned char *proof;
     size_t glen = (size_t)jv_int(in, "glen", 0);
     secp256k1_bppp_generators *g = vh_bp_gens(in, out);
     secp256k1_scalar *cv = vh_bp_scalars(in, "cv", &cl);
     secp256k1_scratch_space *scratch = secp256k1_scratch_space_create(CTX, (size_t)jv_int(in, "scratch", 1 << 20));
     vh_bp_scalar(in, "rho", &rho);
-    vh_bp_transcript(in, &tr); tr2 = tr;
+    vh_bp_transcript(in, &tr); tr2 = tr; tr3 = tr; tr4 = tr; secp256k1_scalar_set_int(&zrho, 0);
     proof = vh_bp_bytes(in, "proof", &plen); if (plen < 0) plen = 0;
     if (!vh_bp_in_ge(in, "commit", &commit)) { fprintf(stderr, "vh: BpppVerify commit is not a point\n"); exit(3); }
     if (g != NULL) {
         jo_int(out, "ret", secp256k1_bppp_rangeproof_norm_product_verify(CTX, scratch, proof, (size_t)plen, &tr, &rho, g, glen, cv, cl, &commit));
         jo_int(out, "ret2", secp256k1_bppp_rangeproof_norm_product_verify(CTX, scratch, proof, (size_t)plen, &tr2, &rho, g, glen, cv, cl, &commit));
+        /* history on ONE scratch space: a rejected call (unusable challenge base) must not consume scratch needed by the next one */
+        jo_int(out, "retz", secp256k1_bppp_rangeproof_norm_product_verify(CTX, scratch, proof, (size_t)plen, &tr3, &zrho, g, glen, cv, cl, &commit));
+        jo_int(out, "ret3", secp256k1_bppp_rangeproof_norm_product_verify(CTX, scratch, proof, (size_t)plen, &tr4, &rho, g, glen, cv, cl, &commit));
     }
     secp256k1_scratch_space_destroy(CTX, scratch);
     secp256k1_bppp_generators_destroy(CTX, g);
